@@ -220,6 +220,117 @@ theorem C33_entity_flush (H : Hooks) (princ saveList : State → Nat → List Na
     rfl
   · exact hsv3
 
+/-! ### queries inside after_* hooks: recursive flushes nested in the after-phase -/
+
+/-- ONCE, nested: whatever the hooks do — including queries inside after_* hooks, which flush recursively to any depth — the trace
+    of a flush that returns is accepted by the once-before / once-after automaton of EVERY (kind, object): each statement is preceded
+    by its own before-hook entry (no second entry in between), followed by its own after-hook entry, nothing is left over -/
+theorem C33_nested_once (H : Hooks) (ord : State → List Nat → List Nat) (bfuel depth : Nat) (hperm : ∀ st l, (ord st l).Perm l)
+    (s s' : State) (hinv : Inv s) (hsv : s.saved = []) (h : flushN H ord bfuel depth s = .ok s') :
+    ∃ t, s'.trace = s.trace ++ t ∧ Balanced t := by
+  obtain ⟨_, _, _, t, e, b⟩ := flushN_spec H ord bfuel hperm depth s s' hinv hsv h
+  exact ⟨t, e, b⟩
+
+/-- SAVED, nested: and nothing is pending, no edit unwritten -/
+theorem C33_nested_saved (H : Hooks) (ord : State → List Nat → List Nat) (bfuel depth : Nat) (hperm : ∀ st l, (ord st l).Perm l)
+    (s s' : State) (hinv : Inv s) (hsv : s.saved = []) (h : flushN H ord bfuel depth s = .ok s') :
+    (∀ o, some o ∉ s'.queue) ∧ ∀ (o : Nat) (ob : Obj), s'.objs[o]? = some ob → kindOf ob.status = none ∧ ob.dirty = 0 := by
+  obtain ⟨hinv', _, hmod, _⟩ := flushN_spec H ord bfuel hperm depth s s' hinv hsv h
+  have hq : ∀ o, some o ∉ s'.queue := by
+    intro o ho
+    have := hinv'.flag o ho
+    rw [hmod] at this; cases this
+  refine ⟨hq, ?_⟩
+  intro o ob hob
+  have hk : kindOf ob.status = none := by
+    cases hk : kindOf ob.status with
+    | none => rfl
+    | some k =>
+      have : s'.kindAt o = some k := by simp [State.kindAt, hob, hk]
+      exact absurd ((hinv'.mem_iff o).mpr ⟨k, this⟩) (hq o)
+  refine ⟨hk, ?_⟩
+  rcases Nat.eq_zero_or_pos ob.dirty with h0 | hpos
+  · exact h0
+  · obtain ⟨k, hk'⟩ := hinv'.dirty o ob hob hpos
+    rw [hk] at hk'; cases hk'
+
+/-- what acceptance by the automaton means in numbers: over the trace, as many before_X(o) entries as X-statements for o as
+    after_X(o) entries -/
+theorem C33_balanced_counts (t : List Event) (h : Balanced t) (k : Kind) (o : Nat) :
+    t.count (.before k o) = t.count (.stmt k o) ∧ t.count (.after k o) = t.count (.stmt k o) := by
+  have key : ∀ (t : List Event) (a a' : Bool) (n n' : Nat), runKey (k, o) t (a, n) = some (a', n') →
+      t.count (.before k o) + (if a then 1 else 0) = t.count (.stmt k o) + (if a' then 1 else 0) ∧
+      n + t.count (.stmt k o) = n' + t.count (.after k o) := by
+    intro t
+    induction t with
+    | nil => intro a a' n n' h; simp [runKey] at h; obtain ⟨rfl, rfl⟩ := h; simp
+    | cons e t ih =>
+      intro a a' n n' h
+      simp only [runKey] at h
+      cases hs : stepKey (k, o) (a, n) e with
+      | none => simp [hs] at h
+      | some st =>
+        simp only [hs] at h
+        obtain ⟨a1, n1⟩ := st
+        obtain ⟨h1, h2⟩ := ih a1 a' n1 n' h
+        cases e with
+        | before k' o' =>
+          simp only [stepKey] at hs
+          by_cases he : (k', o') = (k, o)
+          · simp only [he, if_true] at hs
+            cases a with
+            | true => simp at hs
+            | false =>
+              simp at hs; obtain ⟨rfl, rfl⟩ := hs
+              obtain ⟨rfl, rfl⟩ := Prod.mk.inj he
+              simp [List.count_cons] at h1 h2 ⊢
+              omega
+          · simp only [he, if_false] at hs
+            injection hs with hs; obtain ⟨rfl, rfl⟩ := Prod.mk.inj hs
+            have : ¬ (Event.before k' o' = Event.before k o) := by intro e; injection e with e1 e2; exact he (by rw [e1, e2])
+            simp [List.count_cons, this] at h1 h2 ⊢
+            omega
+        | stmt k' o' =>
+          simp only [stepKey] at hs
+          by_cases he : (k', o') = (k, o)
+          · simp only [he, if_true] at hs
+            cases a with
+            | false => simp at hs
+            | true =>
+              simp at hs; obtain ⟨rfl, rfl⟩ := hs
+              obtain ⟨rfl, rfl⟩ := Prod.mk.inj he
+              simp [List.count_cons] at h1 h2 ⊢
+              omega
+          · simp only [he, if_false] at hs
+            injection hs with hs; obtain ⟨rfl, rfl⟩ := Prod.mk.inj hs
+            have : ¬ (Event.stmt k' o' = Event.stmt k o) := by intro e; injection e with e1 e2; exact he (by rw [e1, e2])
+            simp [List.count_cons, this] at h1 h2 ⊢
+            omega
+        | after k' o' =>
+          simp only [stepKey] at hs
+          by_cases he : (k', o') = (k, o)
+          · simp only [he, if_true] at hs
+            by_cases hn : n = 0
+            · simp [hn] at hs
+            · simp [hn] at hs; obtain ⟨rfl, rfl⟩ := hs
+              obtain ⟨rfl, rfl⟩ := Prod.mk.inj he
+              simp [List.count_cons] at h1 h2 ⊢
+              omega
+          · simp only [he, if_false] at hs
+            injection hs with hs; obtain ⟨rfl, rfl⟩ := Prod.mk.inj hs
+            have : ¬ (Event.after k' o' = Event.after k o) := by intro e; injection e with e1 e2; exact he (by rw [e1, e2])
+            simp [List.count_cons, this] at h1 h2 ⊢
+            omega
+        | linkDel a0 b0 =>
+          simp only [stepKey] at hs; injection hs with hs; obtain ⟨rfl, rfl⟩ := Prod.mk.inj hs
+          simp [List.count_cons] at h1 h2 ⊢; omega
+        | linkIns a0 b0 =>
+          simp only [stepKey] at hs; injection hs with hs; obtain ⟨rfl, rfl⟩ := Prod.mk.inj hs
+          simp [List.count_cons] at h1 h2 ⊢; omega
+  obtain ⟨h1, h2⟩ := key t false false 0 0 (h (k, o) 0)
+  simp at h1 h2
+  omega
+
 /-! ### the hypotheses are satisfiable: concrete flushes with hooks that create and modify -/
 
 /-- object 0 is loaded, object 1 modified (queued), object 2 created (queued) -/
@@ -265,6 +376,13 @@ example : traceOf (flush demoHooks (fun _ l => l) 100 demo) =
 /-- an after-hook that modifies its object for ever: with a limit of 3 rounds, 3 complete rounds (2 objects each), then the error -/
 example : limitInfo (flushLoop { before := fun _ _ _ => [], after := fun _ _ o => [.modify o] } (fun _ l => l) 100 3 demo) = some (true, 18) := by
   decide
+
+/-- after_insert of 2 modifies 1 and 2 and then queries: the nested flush writes both before after_insert(2) returns -/
+example : traceOf (flushN { before := fun _ _ _ => [],
+                            after := fun k s o => if k = .insert ∧ o = 2 ∧ s.trace.count (.after .insert 2) = 1 then [.modify 1, .modify 2, .query] else [] }
+                     (fun _ l => l) 100 3 demo) =
+    some [.before .update 1, .before .insert 2, .stmt .update 1, .stmt .insert 2, .after .update 1, .after .insert 2,
+          .before .update 1, .before .update 2, .stmt .update 1, .stmt .update 2, .after .update 1, .after .update 2] := by decide
 
 theorem demo_lk : LK demo := by
   refine ⟨⟨?_, ?_, ?_⟩, ⟨rfl, rfl⟩, ?_⟩
